@@ -151,7 +151,7 @@ let c_optdef = function
       { od_kind = c_kind kind; od_name = c_str name; od_aliases = c_list c_str aliases; od_default = c_value def;
         od_min = c_nat mn; od_max = c_nat mx; od_required = c_bool req; od_reqmsg = c_str reqmsg; od_env = c_str env;
         od_valid = c_list c_str valid; od_validq = c_str validq; od_suggested = c_list c_str sugg;
-        od_sfn = c_opt c_nat sfn; od_setcalled = c_opt c_bool setc; od_desc = c_str desc; od_argname = c_str argname;
+        od_sfn = c_opt c_nat sfn; od_setcalled = c_opt (c_pair c_bool c_bool) setc; od_desc = c_str desc; od_argname = c_str argname;
         od_defstr = c_str defstr }
   | _ -> fail_sx "optdef"
 
